@@ -218,7 +218,7 @@ struct ChoiceStub {
     tag: &'static str,
 }
 
-/// What the two built-in resolvers provide: for every DH / hash / cipher choice the resolver answers Some exactly
+/// What the two built-in resolvers provide: for every DH / hash / cipher choice the resolver answers Some at least
 /// for the documented set (DefaultResolver: 25519, P256, all four hashes, all three ciphers; RingResolver: no DH,
 /// SHA256 / SHA512, AESGCM / ChaChaPoly), and what it hands out IS the named primitive: its name() is the
 /// choice's name and one known-answer computation equals the reference implementation of that primitive.
@@ -226,15 +226,16 @@ pub fn builtin_table(ctx: &Ctx) {
     use snow::resolvers::{DefaultResolver, RingResolver};
     let resolvers: [(&str, Box<dyn CryptoResolver>, bool); 2] = [("DefaultResolver", Box::new(DefaultResolver), false), ("RingResolver", Box::new(RingResolver), true)];
     for (rname, r, is_ring) in &resolvers {
-        let bad = |what: String| ctx.violation("a built-in resolver hands out something else than the named primitive (or nothing although it documents it, or something although it does not)", format!("{rname}: {what}"), json!({"kind": "builtin"}));
+        let bad = |what: String| ctx.violation("a built-in resolver hands out something else than the named primitive (or nothing although it documents it)", format!("{rname}: {what}"), json!({"kind": "builtin"}));
         for (choice, alg, documented) in [(DHChoice::Curve25519, Some(DhAlg::X25519), !is_ring), (DHChoice::P256, Some(DhAlg::P256), !is_ring), (DHChoice::Curve448, None, false)] {
             ctx.add(&ctx.evaluations, 1);
             match (r.resolve_dh(&choice), documented) {
                 (None, false) => {},
                 (None, true) => bad(format!("no DH for {choice:?}")),
-                (Some(_), false) => bad(format!("a DH for {choice:?}")),
-                (Some(mut d), true) => {
-                    let alg = alg.unwrap();
+                // (a resolver that offers more than the documented set is fine, as long as what it offers is the
+                // named primitive; Curve448 has no reference here and is not judged)
+                (Some(mut d), _) => {
+                    let Some(alg) = alg else { continue };
                     let sk = crate::exec::key_bytes(1);
                     d.set(&sk);
                     let peer = alg.pubkey(&crate::exec::key_bytes(2)).unwrap();
@@ -253,8 +254,7 @@ pub fn builtin_table(ctx: &Ctx) {
             match (r.resolve_hash(&choice), documented) {
                 (None, false) => {},
                 (None, true) => bad(format!("no hash for {choice:?}")),
-                (Some(_), false) => bad(format!("a hash for {choice:?}")),
-                (Some(mut h), true) => {
+                (Some(mut h), _) => {
                     let mut out = vec![0u8; 64];
                     h.reset();
                     h.input(b"built-in resolver table");
@@ -273,8 +273,7 @@ pub fn builtin_table(ctx: &Ctx) {
             match (r.resolve_cipher(&choice), documented) {
                 (None, false) => {},
                 (None, true) => bad(format!("no cipher for {choice:?}")),
-                (Some(_), false) => bad(format!("a cipher for {choice:?}")),
-                (Some(mut c), true) => {
+                (Some(mut c), _) => {
                     let key = [0x42u8; 32];
                     c.set(&key);
                     let mut out = vec![0u8; 64];
@@ -307,7 +306,10 @@ fn hash_idx(c: &HashChoice) -> u8 {
         HashChoice::SHA256 => 0,
         HashChoice::SHA512 => 1,
         HashChoice::Blake2s => 2,
+        #[allow(unreachable_patterns)]
         HashChoice::Blake2b => 3,
+        #[allow(unreachable_patterns)]
+        _ => 4,
     }
 }
 fn cipher_idx(c: &CipherChoice) -> u8 {
